@@ -7,6 +7,10 @@
    (a) one readable entry with a Path line yields exactly ONE stdout record  date SP volume-joined-path LF  -
        the date as trash-restore/-empty read it (C20), question marks when undated - and nothing on stderr;
    (b) every other info file yields no stdout record, only a diagnostic on stderr;
+   (f) THE FULL STATEMENT AT THE LEVEL OF THE MODEL, for a file system that holds still while trash-list runs
+       (list_prints_exactly_the_entries, Proofs/StaticList.v): the standard output is exactly, directory by directory over the home
+       trash and every usable volume trash directory, one line  date SP absolute-path LF  per .trashinfo name of info/ that reads
+       as a text with a Path - nothing for anything else, nothing twice, nothing from anywhere else - and the exit status is 0;
    (c) which directories are scanned: the home trash, and per volume .Trash/$uid only when secure (C08) and
        .Trash-$uid when it is a directory: Scan.scan_trash_dirs - and that this is ALL of them, each once, in order, for every
        consumer of the scan, under a file system that holds still while it is looked at (Proofs/StaticScan.v:
@@ -16,7 +20,7 @@
        restore/rm/empty remove payload then info of exactly the selected entries (C13, C12, C10, C15);
    (e) trash-list itself changes nothing: it issues no mutating operation, every file system a run is consistent with is
        afterwards what it was (list_issues_no_mutation, list_changes_nothing). *)
-From TV Require Import Prelude.Str Prelude.PosixPath Codec.TrashInfo Prog.Prog Cmd.Put Cmd.Scan Cmd.ListCmd Proofs.ProgProofs World.World Proofs.ListReadOnly Proofs.Independence Proofs.AsIfAbsent Proofs.StaticScan.
+From TV Require Import Prelude.Str Prelude.PosixPath Codec.TrashInfo Prog.Prog Cmd.Put Cmd.Scan Cmd.ListCmd Proofs.ProgProofs World.World Proofs.ListReadOnly Proofs.Independence Proofs.AsIfAbsent Proofs.StaticScan Proofs.StaticList.
 From Coq Require Import List.
 Import ListNotations.
 Open Scope N_scope.
@@ -128,3 +132,45 @@ Example ex_fs_events :
   = [Found ($"/home/a/.local/share/Trash") ($"/"); Found ($"/vol/.Trash/7") ($"/vol"); Found ($"/vol/.Trash-7") ($"/vol");
      Found ($"/home/b/.local/share/Trash") ($"/")].
 Proof. split; vm_compute; reflexivity. Qed.
+
+(* ---- the full statement, for a file system that holds still (Proofs/StaticList.v) ----
+   souts fs m: what m writes to standard output under fs.  readable fs: writing to the terminal succeeds; reading an info file
+   gives a text or fails with an OSError / a decoding error; an existing info/ can be listed.
+   event_lines fs (Found td v) = for each .trashinfo name x of the listing of td/info, the line
+   maybe_parse_deletion_date c ++ " " ++ join2 v rel ++ LF  when td/info/x reads as a text c with parse_path c = Some rel, nothing
+   otherwise; a skipped directory contributes nothing (its diagnostic goes to stderr). *)
+Theorem list_prints_exactly_the_entries : forall fs o, sane fs -> readable fs ->
+  lo_size o = false -> lo_files o = false -> lo_trash_dirs o = [] ->
+  souts fs (list_main o) = flat_map (event_lines fs) (selected_events fs (lo_all_users o) (lo_environ o) (lo_uid o))
+  /\ srun fs (list_main o) = Done 0.
+Proof. intros fs o Hs Hr Hsz Hf Hd. apply static_list_output_lemma; assumption. Qed.
+Print Assumptions list_prints_exactly_the_entries.
+
+(* non-vacuity: /vol/.Trash-7/info lists a.trashinfo (readable), b.trashinfo (unreadable) and a stray file *)
+Definition ex_info := Eval compute in $"/vol/.Trash-7/info".
+Definition ex_fs2 : statics := fun o =>
+  match o with
+  | Prog.Exists p => RBool (str_eqb p ex_info)
+  | Isdir p => RBool (str_eqb p ($"/vol/.Trash-7"))
+  | Stat _ => RStat 17407 0
+  | ListMounts => RList []
+  | Listdir _ => RList [$"a.trashinfo"; $"junk"; $"b.trashinfo"]
+  | ReadText p => if str_eqb p (ex_info ++ $"/a.trashinfo")
+                  then RStr ($"[Trash Info]" ++ [10] ++ $"Path=d/a%20b" ++ [10] ++ $"DeletionDate=2024-01-02T03:04:05" ++ [10])
+                  else RErr (OSError 13)
+  | _ => if bool_op o then RBool false else RUnit
+  end.
+Example ex_fs2_sane : sane ex_fs2 /\ readable ex_fs2.
+Proof.
+  split; constructor.
+  - intros o Hb. destruct o; simpl in *; try discriminate; eauto.
+  - intros p _. simpl. eauto.
+  - simpl. eauto.
+  - intros o Hs. destruct o; simpl in *; try discriminate; reflexivity.
+  - intros p. simpl. destruct (str_eqb p _); [left|right]; eauto.
+  - intros p _. simpl. eauto.
+Qed.
+Example ex_fs2_output :
+  souts ex_fs2 (list_main (mklist [] false false [($"TRASH_VOLUMES", $"/vol")] 7 None))
+  = [$"2024-01-02 03:04:05 /vol/d/a b" ++ [10]].
+Proof. vm_compute. reflexivity. Qed.
